@@ -1,2 +1,61 @@
-(* C18 -- theorems are being added *)
-From ZK Require Import Cl.
+(* C18 -- CL03 keys and parameters: construction invariants of the generators (for every sequence of draws) and codecs.
+   Primality of p, q, (p-1)/2, (q-1)/2 is decided by GMP (probable primes): re-tested by the sweep, not proved. *)
+From ZK Require Import Cl ClArith ClSig ClMore.
+
+Theorem C18_keygen_shape :
+  forall CS ds pk sk ds', keygen CS ds = Ok ((pk, sk), ds') ->
+  pk_N pk = (sk_p sk * sk_q sk)%Z /\ sk_p sk <> sk_q sk /\
+  (exists p' q', sk_p sk = (2 * p' + 1)%Z /\ sk_q sk = (2 * q' + 1)%Z) /\
+  probably_prime (sk_p sk) = true /\ probably_prime (sk_q sk) = true /\
+  (exists r, pk_b pk = ((r * r) mod pk_N pk)%Z /\ (1 < pk_b pk)%Z /\ Z.gcd (pk_b pk) (pk_N pk) = 1%Z) /\
+  (exists r, pk_c pk = ((r * r) mod pk_N pk)%Z /\ (1 < pk_c pk)%Z /\ Z.gcd (pk_c pk) (pk_N pk) = 1%Z).
+Proof. exact keygen_shape. Qed.
+Check (C18_keygen_shape :
+  forall CS ds pk sk ds', keygen CS ds = Ok ((pk, sk), ds') ->
+  pk_N pk = (sk_p sk * sk_q sk)%Z /\ sk_p sk <> sk_q sk /\
+  (exists p' q', sk_p sk = (2 * p' + 1)%Z /\ sk_q sk = (2 * q' + 1)%Z) /\
+  probably_prime (sk_p sk) = true /\ probably_prime (sk_q sk) = true /\
+  (exists r, pk_b pk = ((r * r) mod pk_N pk)%Z /\ (1 < pk_b pk)%Z /\ Z.gcd (pk_b pk) (pk_N pk) = 1%Z) /\
+  (exists r, pk_c pk = ((r * r) mod pk_N pk)%Z /\ (1 < pk_c pk)%Z /\ Z.gcd (pk_c pk) (pk_N pk) = 1%Z)).
+Print Assumptions C18_keygen_shape.
+
+Theorem C18_random_qr_spec :
+  forall n ds qr ds', random_qr n ds = Ok (qr, ds') ->
+  exists r, qr = ((r * r) mod n)%Z /\ (1 < qr)%Z /\ Z.gcd qr n = 1%Z /\ (0 < n)%Z.
+Proof. exact random_qr_spec. Qed.
+Check (C18_random_qr_spec :
+  forall n ds qr ds', random_qr n ds = Ok (qr, ds') ->
+  exists r, qr = ((r * r) mod n)%Z /\ (1 < qr)%Z /\ Z.gcd qr n = 1%Z /\ (0 < n)%Z).
+Print Assumptions C18_random_qr_spec.
+
+Theorem C18_qr_mod_factor :
+  forall r p q, (0 < p)%Z -> (0 < q)%Z -> (((r * r) mod (p * q)) mod p = ((r mod p) * (r mod p)) mod p)%Z.
+Proof. exact qr_mod_factor. Qed.
+Check (C18_qr_mod_factor :
+  forall r p q, (0 < p)%Z -> (0 < q)%Z -> (((r * r) mod (p * q)) mod p = ((r mod p) * (r mod p)) mod p)%Z).
+Print Assumptions C18_qr_mod_factor.
+
+Theorem C18_bases_generate_spec :
+  forall N n ds bs ds', bases_generate N n ds = Ok (bs, ds') ->
+  length bs = n /\ Forall (fun a => exists r, a = ((r * r) mod N)%Z /\ (1 < a)%Z /\ Z.gcd a N = 1%Z) bs.
+Proof. exact bases_generate_spec. Qed.
+Check (C18_bases_generate_spec :
+  forall N n ds bs ds', bases_generate N n ds = Ok (bs, ds') ->
+  length bs = n /\ Forall (fun a => exists r, a = ((r * r) mod N)%Z /\ (1 < a)%Z /\ Z.gcd a N = 1%Z) bs).
+Print Assumptions C18_bases_generate_spec.
+
+Theorem C18_cpk_gbase_spec :
+  forall h N ds g ds', cpk_gbase h N ds = Ok (g, ds') ->
+  exists f, pow_mod h f N = Ok g /\ (1 < g)%Z /\ Z.gcd g N = 1%Z.
+Proof. exact cpk_gbase_spec. Qed.
+Check (C18_cpk_gbase_spec :
+  forall h N ds g ds', cpk_gbase h N ds = Ok (g, ds') ->
+  exists f, pow_mod h f N = Ok g /\ (1 < g)%Z /\ Z.gcd g N = 1%Z).
+Print Assumptions C18_cpk_gbase_spec.
+
+Theorem C18_pk_codec_roundtrip :
+  forall CS pk b, pk_to_bytes CS pk = Ok b -> pk_from_bytes CS b = Ok pk.
+Proof. exact pk_codec_roundtrip. Qed.
+Check (C18_pk_codec_roundtrip :
+  forall CS pk b, pk_to_bytes CS pk = Ok b -> pk_from_bytes CS b = Ok pk).
+Print Assumptions C18_pk_codec_roundtrip.
